@@ -261,7 +261,7 @@ func writeSlices(sw *bufio.Writer, s *vt.Sched, tag string) int {
 	want := func(k string) bool {
 		// apimix overlaps control calls (Stop with Resume with Restart ...): outside the environment
 		// assumptions of the dispatcher / wake-up / lifecycle slices; judged for races only
-		if (strings.HasPrefix(tag, "apimix:") || strings.HasPrefix(tag, "ctlrace:")) && k != "hb" && k != "lock" {
+		if (strings.HasPrefix(tag, "apimix:") || strings.HasPrefix(tag, "ctlrace:")) && k != "hb" && k != "lock" && !(k == "barrier" && strings.HasPrefix(tag, "ctlrace:")) {
 			return false
 		}
 		return kinds == "" || strings.Contains(","+kinds+",", ","+k+",")
@@ -287,6 +287,9 @@ func writeSlices(sw *bufio.Writer, s *vt.Sched, tag string) int {
 	}
 	if want("pool") {
 		n += writePoolSlices(sw, s, tag)
+	}
+	if want("barrier") {
+		n += writeBarrierSlices(sw, s, tag)
 	}
 	if want("hb") {
 		n += writeHBSlices(sw, s, tag)
